@@ -39,7 +39,7 @@ def gen_cases(rng, n):
         hg = G.HistGen(rng, cfg, notation=rng.choice([0, 0.15, 0.4]), wrong=rng.choice([0, 0, 0.03]),
                        wild=rng.choice([0, 0.05, 0.15]))
         if rng.random() < 0.2:
-            claims, calls, _ = hg.module_history(rng.randrange(0, 4), rng.randrange(0, 3), 0)
+            claims, calls, _ = hg.module_history(rng.randrange(0, 4), rng.randrange(0, 3), rng.choice([0, 0.1, 0.3]))
             cases.append(dict(kind='module', phase='G', claims=claims, calls=calls))
         else:
             ph = rng.choice('GCPPP')
@@ -171,6 +171,8 @@ def run(tier, seed):
         if ans.startswith('PASS'):
             npass += 1
         elif ans.startswith('FAIL'):
+            if sum(1 for o in oracle_fail if o[0].startswith('roundtrip:')) >= 8:
+                continue
             sig = first_failing_call(req, c)
             oracle_fail.append((sig, 'serialise -> deserialise does not reproduce the state: ' + ans[:200],
                                 dict(request=req, got=ans)))
